@@ -1096,6 +1096,16 @@ class DimEval:
                 xd = lin(ds[1]) if len(ds) > 1 else lin(kd.get('x0'))
             if xd is None:
                 xd = S.fresh()
+            # tolerance on the unknown: scipy's bracketing root finders stop at |b - a| < xtol + rtol |x| with the
+            # ABSOLUTE default xtol = 2e-12 -- a pure number compared with the unknown, in whatever unit the user chose.
+            # Recorded, not unified (C08 reports it separately once the unknown's dimension is known).
+            if name in ('scipy.optimize.bisect', 'scipy.optimize.brentq', 'scipy.optimize.brenth', 'scipy.optimize.ridder'):
+                xt = kd.get('xtol')
+                if xt is None and len(ds) > 4:
+                    xt = ds[4]
+                if not hasattr(self, 'root_tolerances'):
+                    self.root_tolerances = []
+                self.root_tolerances.append((n, xd, lin(xt) if xt is not None else None, xt is not None))
             self.memo[ph[0].nid] = xd
             fr = self.dim(res_n) if res_n is not None else None
             for key, ph2, r2 in ho.get('callbacks', []):
